@@ -15,6 +15,8 @@ Per cell (one test problem + one option combination) the check decides on the re
 No statistical test is involved anywhere.
 """
 import hashlib
+import contextlib
+import io
 import numpy as np
 from vfw.core import CellResult, close, HarnessError
 from vfw import refs
@@ -487,6 +489,28 @@ def eval_d1(res, cell):
     # (d)
     check_components(res, comp, pz, var, _points(dim, k))
     res.state("components")
+    # (e) non-initial state: after a point estimate / direct sampling on the SAME problem object the data and the
+    #     posterior it hands out are still the ones checked above
+    if dim <= 8 and pz is not None:
+        try:
+            d0 = np.array(_arr(pz.data), copy=True)
+            xq = _points(dim, k)[-1]
+            l0 = float(_arr(pz.posterior.logd(xq)).ravel()[0])
+            with contextlib.redirect_stdout(io.StringIO()):
+                pz.MAP(disp=False)
+            res.transitions += 1
+            d1v = _arr(pz.data)
+            l1 = float(_arr(pz.posterior.logd(xq)).ravel()[0])
+        except HarnessError:
+            raise
+        except Exception as e:
+            res.outcomes.add("after-MAP:refused:" + type(e).__name__)
+        else:
+            res.evaluations += 1
+            res.state("after-MAP")
+            if not close(d1v, d0, 1e-13) or not close(l1, l0, 1e-10):
+                res.fail("C17|%s|data|altered-by-MAP" % comp, "after MAP() on the same problem object the data / posterior handed out "
+                         "changed (max |data change| %.3g, posterior logd %.10g -> %.10g)" % (float(np.max(np.abs(d1v - d0))), l0, l1))
 
 
 # ----------------------------------------------------------------------------------------
